@@ -637,19 +637,23 @@ static Boolean DecodePseudo(void) {
                         goto ToInt;
                     }
 
-                    for (z = 0, cp = t.Contents.str.p_str, cend = cp + t.Contents.str.len;
-                         cp < cend; cp++, z++) {
+                {
+                    int cz; /* (z counts the arguments) */
+
+                    for (cz = 0, cp = t.Contents.str.p_str, cend = cp + t.Contents.str.len;
+                         cp < cend; cp++, cz++) {
                         DAsmCode[CodeLen] = (DAsmCode[CodeLen] << 8)
                                             + CharTransTable[((usint)*cp) & 0xff];
-                        if ((z & 3) == 3) {
+                        if ((cz & 3) == 3) {
                             CodeLen++;
                         }
                     }
-                    if ((z & 3) != 0) {
-                        DAsmCode[CodeLen] = (DAsmCode[CodeLen]) << ((4 - (z & 3)) << 3);
+                    if ((cz & 3) != 0) {
+                        DAsmCode[CodeLen] = (DAsmCode[CodeLen]) << ((4 - (cz & 3)) << 3);
                         CodeLen++;
                     }
                     break;
+                }
                 case TempInt:
                 ToInt:
                     if (!RangeCheck(t.Contents.Int, Int32)) {
